@@ -165,7 +165,7 @@ FS_FN = {1: 'kill_preference', 2: 'memory_current', 3: 'memory_high', 4: 'swap_c
 
 def _fs_variant(fn, tpl, timeout=900):
     n = len(tpl)
-    return dict(name='%s_%s' % (FS_FN[fn], tpl.replace(' ', '_') or 'empty'), defs={'H_FN': fn, 'H_LEN': n, 'H_TPL': '"%s"' % tpl, 'VSTL_STR_CAP': max(24, n + 2)}, unwind=max(9, n + 3), reach_optional=True, timeout=timeout)
+    return dict(name='%s_%s' % (FS_FN[fn], tpl.replace(' ', '_') or 'empty'), props=(['C03', 'C15', 'C10'] if fn == 1 else ['C15', 'C10']), defs={'H_FN': fn, 'H_LEN': n, 'H_TPL': '"%s"' % tpl, 'VSTL_STR_CAP': max(24, n + 2)}, unwind=max(9, n + 3), reach_optional=True, timeout=timeout)
 
 
 H['fsleaf'] = dict(
@@ -195,7 +195,7 @@ def RETRY(bound):
 H['kill'] = dict(
     props=['C01', 'C03', 'C04', 'C17'], dir='harness/kill',
     oomd=KILL_OOMD, cxx=['h_kill.cpp'] + KILL_ENV, c=['main_kill.c', 'env/libc_stubs.c'],
-    keep=['vfk_openat', 'vfk_syscall'],   # called only from the C stubs (env/libc_stubs.c)
+    keep=['vfk_openat', 'vfk_syscall'], object_bits=14,   # called only from the C stubs (env/libc_stubs.c)
     override_cxx=['env/kill_overrides.cpp'], override_symbols=['_ZN4Oomd14BaseKillPlugin14dumpMemoryStatERKNS_13CgroupContextE'],
     defs={'VSTL_STR_CAP': 24, 'VSTL_VEC_MAX': 4, 'VSTL_MAP_MAX': 6, 'VFW_MAXN': 5, 'VFW_MAXPIDS': 2, 'VF_CFG_N': 12},
     unwind=9, unwind_big=25, timeout=1500,
@@ -205,13 +205,13 @@ H['kill'] = dict(
         # The whole-plugin walk (resolve, rank, DFS with fallback, attempt, accounting calls, return value; wet/dry pair) is the
         # thorough tier: one CBMC round of it takes tens of minutes on this image.
         'quick': [
-            dict(name='signal_unit_n3', defs={'H_NODES': 3, 'H_PAT': 0, 'H_NPIDS': 2, 'H_MODE': 4}, props=['C01', 'C17'], reach_optional=True),
+            dict(name='signal_unit_n3', defs={'H_NODES': 3, 'H_PAT': 0, 'H_NPIDS': 2, 'H_MODE': 4, 'VSTL_VEC_MAX': 20}, props=['C01', 'C17'], reach_optional=True),
             dict(name='rank_unit', defs={'H_NODES': 5, 'H_PAT': 0, 'H_NPIDS': 1, 'H_MODE': 5}, props=['C03'], reach_optional=True),
             dict(name='xattr_unit', defs={'H_NODES': 2, 'H_PAT': 0, 'H_NPIDS': 1, 'H_MODE': 3}, props=['C17'], reach_optional=True),
         ],
         'thorough': [
-            dict(name='signal_unit_n3', defs={'H_NODES': 3, 'H_PAT': 0, 'H_NPIDS': 2, 'H_MODE': 4}, props=['C01', 'C17'], reach_optional=True),
-            dict(name='signal_unit_n5', defs={'H_NODES': 5, 'H_PAT': 0, 'H_NPIDS': 1, 'H_MODE': 4}, props=['C01', 'C17'], reach_optional=True, timeout=7200),
+            dict(name='signal_unit_n3', defs={'H_NODES': 3, 'H_PAT': 0, 'H_NPIDS': 2, 'H_MODE': 4, 'VSTL_VEC_MAX': 20}, props=['C01', 'C17'], reach_optional=True),
+            dict(name='signal_unit_n5', defs={'H_NODES': 5, 'H_PAT': 0, 'H_NPIDS': 1, 'H_MODE': 4, 'VSTL_VEC_MAX': 20}, props=['C01', 'C17'], reach_optional=True, timeout=7200),
             dict(name='rank_unit', defs={'H_NODES': 5, 'H_PAT': 0, 'H_NPIDS': 1, 'H_MODE': 5}, props=['C03'], reach_optional=True),
             dict(name='xattr_unit', defs={'H_NODES': 2, 'H_PAT': 0, 'H_NPIDS': 1, 'H_MODE': 3}, props=['C17'], reach_optional=True),
             dict(name='walk_min', loop_bounds=[RETRY(3)], defs={'H_NODES': 3, 'H_PAT': 1, 'H_NPIDS': 1, 'H_NO_KERNELKILL': 1, 'H_NO_REAP': 1}, props=['C01', 'C03', 'C17'], reach_optional=True, timeout=10800),
